@@ -273,66 +273,4 @@ theorem parseHex_printHex : ∀ bs : List Nat, (∀ b ∈ bs, b < 256) →
       hexVal_hexChar (b / 16) (by omega), hexVal_hexChar (b % 16) (by omega), ih]
     congr 2; omega
 
-/-! ### exit clauses -/
-
-/-- both library errors have a clause with a non-zero status and a non-empty message -/
-def exitsWf (cl : List ExitClause) : Bool :=
-  [ExcKind.completionCode, ExcKind.timeout].all fun k =>
-    match cl.find? (fun c => c.exc == k) with
-    | some c => c.status != 0 &&
-        (match c.msg with
-         | some (.lit s) => !s.isEmpty
-         | some (.hex2cc pre) => !pre.isEmpty
-         | none => false)
-    | none => false
-
-theorem exit_of_wf {α} (cl : List ExitClause) (hwf : exitsWf cl = true) (o : Outcome α)
-    (ho : (∃ c, o = .ccError c) ∨ o = .timeoutError) :
-    ∃ r, exitOf cl o = some r ∧ r.status ≠ 0 ∧ r.message ≠ [] := by
-  unfold exitsWf at hwf
-  simp only [List.all_cons, List.all_nil, Bool.and_true, Bool.and_eq_true] at hwf
-  obtain ⟨h1, h2⟩ := hwf
-  cases ho with
-  | inl hc =>
-    obtain ⟨c, rfl⟩ := hc
-    unfold exitOf
-    simp only [excOf]
-    cases hf : cl.find? (fun c => c.exc == ExcKind.completionCode) with
-    | none => rw [hf] at h1; simp at h1
-    | some cls =>
-      rw [hf] at h1
-      simp only [Bool.and_eq_true, bne_iff_ne, ne_eq] at h1
-      refine ⟨_, rfl, h1.1, ?_⟩
-      cases hm : cls.msg with
-      | none => rw [hm] at h1; simp at h1
-      | some m =>
-        cases m with
-        | lit s =>
-          rw [hm] at h1
-          simp only [fmtMsg]
-          intro hs; rw [hs] at h1; simp at h1
-        | hex2cc pre => simp [fmtMsg]
-  | inr ht =>
-    subst ht
-    unfold exitOf
-    simp only [excOf]
-    cases hf : cl.find? (fun c => c.exc == ExcKind.timeout) with
-    | none => rw [hf] at h2; simp at h2
-    | some cls =>
-      rw [hf] at h2
-      simp only [Bool.and_eq_true, bne_iff_ne, ne_eq] at h2
-      refine ⟨_, rfl, h2.1, ?_⟩
-      cases hm : cls.msg with
-      | none => rw [hm] at h2; simp at h2
-      | some m =>
-        cases m with
-        | lit s =>
-          rw [hm] at h2
-          simp only [fmtMsg]
-          intro hs; rw [hs] at h2; simp at h2
-        | hex2cc pre =>
-          rw [hm] at h2
-          simp only [fmtMsg]
-          intro hs; rw [hs] at h2; simp at h2
-
 end PyIpmi.Cli
